@@ -109,6 +109,33 @@ def journaled_run(cfg, base):
     return parse_journal(jpath, os.path.realpath(rundir)), rundir
 
 
+def journaled_resume(cfg, base, image_dir, tag):
+    """Resume from a copy of the crash image in image_dir in a subprocess under the write journal.
+    Returns (ops, rundir): the physical writes of the RESUMED process, relative to its directory."""
+    top = os.path.join(base, f"resume_{tag}")
+    rundir = os.path.join(top, "run")
+    shutil.rmtree(top, ignore_errors=True)
+    os.makedirs(top)
+    shutil.copytree(image_dir, rundir)
+    jpath = os.path.join(top, "journal.bin")
+    cpath = os.path.join(top, "cfg.json")
+    with open(cpath, "w") as fh:
+        json.dump(cfg, fh)
+    env = dict(os.environ)
+    env.update(
+        LD_PRELOAD=SHIM, VP_JOURNAL_ROOT=os.path.realpath(rundir), VP_JOURNAL=jpath,
+        PYTHONPATH=VERIF_ROOT + os.pathsep + env.get("PYTHONPATH", ""), VP_REPO=REPO_ROOT,
+    )  # fmt: skip
+    r = subprocess.run(
+        [sys.executable, "-m", "vp.drivers.crash_runner", cpath, "--resume"], cwd=rundir, env=env, capture_output=True,
+        text=True, timeout=900,
+    )  # fmt: skip
+    if r.returncode != 0:
+        raise RuntimeError(f"journaled resume failed rc={r.returncode}: {r.stderr[-2000:]}")
+    ops = parse_journal(jpath, os.path.realpath(rundir)) if os.path.exists(jpath) else []
+    return ops, rundir
+
+
 def parse_journal(jpath, root):
     ops = []
     with open(jpath, "rb") as fh:
@@ -129,10 +156,11 @@ def parse_journal(jpath, root):
     return ops
 
 
-def apply_ops(ops, torn=None):
+def apply_ops(ops, torn=None, base=None):
     """File system image {relpath: bytearray} after ops; `torn` = number of bytes of the LAST op's
-    payload that reached the file (page-split torn write)."""
-    files = {}
+    payload that reached the file (page-split torn write); `base` = image the ops start from (journal
+    of a RESUMED run: its writes land on the files the crashed run left behind)."""
+    files = {k: bytearray(v) for k, v in base.items()} if base else {}
     n = len(ops)
     for i, op in enumerate(ops):
         k, p = op["kind"], op["path"]
